@@ -14,6 +14,7 @@ def run(tier, seed):
     wiring.interception_obligations(rep, tier)
     wiring.spelling_independence_obligations(rep, tier)
     wiring.ref_resolution_obligations(rep, tier)
+    wiring.frontend_renaming_obligations(rep, tier)
     rep.assumptions.append('the composite grammar C20_GRAMMAR exercises every expression class and option that allocates names (checked against the class table of wiring.visit_reaches_every_child)')
     rep.assumptions.append('names violating disjointness on the unchanged tree are inherent in the naming scheme (a repair renames every temporary and regenerates parser.py): '
                            'listed one by one in known_findings.json; any NEW colliding name is a violation')
